@@ -12,6 +12,11 @@ With --keep the change is stored as /verif/seeded/<name>/ (patch.diff, demo_test
 import json, os, re, shutil, subprocess, sys, tempfile, time
 
 ENV = dict(os.environ, GOFLAGS="-mod=mod", GOPROXY="off", GOSUMDB="off")
+# MUT_REPO / MUT_VERIF: run the checks of a scratch copy of /verif (same sources, its harness module replaced
+# onto a scratch worktree of /repo) instead - used while a long run of the real checks occupies /repo.
+REPO = os.environ.get("MUT_REPO", "/repo")
+VERIF = os.environ.get("MUT_VERIF", "/verif")
+WORKERS = os.environ.get("MUT_WORKERS", "")
 
 def run(cmd, cwd, timeout=900):
     p = subprocess.run(cmd, cwd=cwd, env=ENV, stdout=subprocess.PIPE, stderr=subprocess.STDOUT, text=True, timeout=timeout)
@@ -62,16 +67,16 @@ def main():
     out["confirmed"] = bool(confirmed)
     out["checks"] = {}
     if confirmed:
-        rc, o = run(["git", "-C", "/repo", "apply", patch], "/repo")
+        rc, o = run(["git", "-C", REPO, "apply", patch], REPO)
         try:
             for p in props:
                 t0 = time.time()
-                rc, o = run(["./check", p, "--budget", budget], "/verif", timeout=3600)
+                rc, o = run(["./check", p, "--budget", budget] + (["--workers", WORKERS] if WORKERS else []), VERIF, timeout=3600)
                 lines = [l for l in o.splitlines() if l.startswith("VIOLATION") or l.startswith("  seed=") or l.startswith("  the worker") or "tier=" in l or l.startswith("TROUBLE") or l.startswith("BUILD")]
                 out["checks"][p] = {"exit": rc, "caught": rc == 1, "wall_s": round(time.time() - t0, 1), "lines": [l[:700] for l in lines[:6]]}
         finally:
-            run(["git", "-C", "/repo", "checkout", "--", "."], "/repo")
-            run(["git", "-C", "/repo", "clean", "-fdq"], "/repo")
+            run(["git", "-C", REPO, "checkout", "--", "."], REPO)
+            run(["git", "-C", REPO, "clean", "-fdq"], REPO)
     print(json.dumps(out, indent=1))
     if keep and confirmed:
         dst = os.path.join("/verif/seeded", keep)
@@ -86,7 +91,7 @@ def main():
                 "confirmed": {k: out[k] for k in ("builds", "suite_passes_with_patch", "demo_fails_with_patch", "demo_passes_without_patch")},
                 "what_was_run": ["git apply patch.diff in a scratch worktree; go build ./... ; go build -tags verif ./... ; go test -vet=off -count=1 ./... (passes)",
                                  "demo_test.go copied in: go test -run <demo> fails with the patch, passes without",
-                                 "git -C /repo apply patch.diff ; ./check <property> --budget %s ; git -C /repo checkout -- ." % budget],
+                                 "git -C %s apply patch.diff ; ./check <property> --budget %s%s ; git checkout -- ." % (REPO, budget, (" --workers " + WORKERS + " (scratch copy of /verif at the same commit, while the thorough tier ran on /repo)") if WORKERS else "")],
                 "check_results": out["checks"]}
         json.dump(meta, open(os.path.join(dst, "meta.json"), "w"), indent=1)
     return 0
